@@ -103,9 +103,17 @@ pub struct Stats {
 	pub exempt: u64,
 	pub checked: u64,
 	pub log_hash: u64,
+	/// per-key maxima (calibration of the drift constants: worst observed |y-v| / unit)
+	pub maxima: BTreeMap<String, f64>,
 }
 
 impl Stats {
+	pub fn maximum(&mut self, k: &str, x: f64) {
+		let e = self.maxima.entry(k.into()).or_insert(0.0);
+		if x > *e {
+			*e = x;
+		}
+	}
 	pub fn fault(&mut self, k: &str) {
 		*self.faults.entry(k.into()).or_insert(0) += 1;
 		self.nontrivial = true;
@@ -148,6 +156,12 @@ impl Stats {
 			*self.probes.entry(k.clone()).or_insert(0) += v;
 		}
 		self.suts.extend(o.suts.iter().cloned());
+		for (k, v) in &o.maxima {
+			let e = self.maxima.entry(k.clone()).or_insert(0.0);
+			if *v > *e {
+				*e = *v;
+			}
+		}
 		self.log_hash = (self.log_hash ^ o.log_hash).wrapping_mul(0x0000_0100_0000_01b3).rotate_left(7);
 	}
 }
@@ -253,6 +267,9 @@ pub struct Finding {
 	#[serde(default, rename = "where")]
 	pub cond: BTreeMap<String, J>,
 	pub what: String,
+	/// replay file (relative to /verif) that is re-executed on every run of the property's check
+	#[serde(default)]
+	pub witness: Option<String>,
 }
 
 #[derive(Clone, Debug, Deserialize, Default)]
@@ -448,6 +465,33 @@ pub fn run_check<C: Check>(chk: &C, tier: Tier) -> Outcome {
 	let mut new_violations = 0u64;
 	let dir = verif_dir();
 	let _ = std::fs::create_dir_all(dir.join("replays"));
+	// replay the witness of every listed finding of this property: the KNOWN-FINDING line does not depend on the
+	// seeded runs happening to reach it, and a finding that no longer reproduces is reported as such
+	for f in kf.findings.iter().filter(|f| f.property == id) {
+		let Some(w) = &f.witness else { continue };
+		let reproduced = std::fs::read_to_string(dir.join(w))
+			.ok()
+			.and_then(|t| serde_json::from_str::<J>(&t).ok())
+			.and_then(|doc| {
+				let cj = if doc["case"]["minimised"].is_null() { doc["case"].clone() } else { doc["case"]["minimised"].clone() };
+				serde_json::from_value::<C::Case>(cj).ok()
+			})
+			.map(|case| {
+				let mut st = Stats::default();
+				exec_guarded(chk, &case, &mut st).iter().any(|v| f.matches(v))
+			});
+		match reproduced {
+			Some(true) => {
+				let e = known_seen.entry(f.id.clone()).or_insert((f.what.clone(), 0));
+				e.1 += 1;
+			}
+			Some(false) => println!("note: known finding {} no longer reproduces from its witness {w}", f.id),
+			None => {
+				eprintln!("harness error: witness {w} of known finding {} cannot be read as a case of check {id}", f.id);
+				std::process::exit(2);
+			}
+		}
+	}
 	let mut report = |run: u64, v: &Violation, replay: J, minimised_rounds: usize| -> bool {
 		if let Some(f) = kf.findings.iter().find(|f| f.matches(v)) {
 			let e = known_seen.entry(f.id.clone()).or_insert((f.what.clone(), 0));
@@ -539,6 +583,7 @@ pub fn run_check<C: Check>(chk: &C, tier: Tier) -> Outcome {
 			"probes": total.probes,
 			"probes_stuck_at_zero": zero_probes,
 			"suts_covered": total.suts,
+			"worst_observed_error_in_drift_units": total.maxima,
 			"oracle_verdicts_checked": total.checked,
 			"oracle_verdicts_exempt": total.exempt,
 			"components": chk.components(),
